@@ -14,7 +14,7 @@ MANIFEST = {
  "technique": "Coq invariant proofs over all histories of a scheduler state machine + fault enumeration on real mrp with kernel-evaluated trace acceptance",
 }
 
-CONTENT = ("truncated", "invalid", "missing_key", "wrong_type")
+CONTENT = ("truncated", "invalid", "missing_key", "wrong_type", "null_value")
 KINDS = ("error", "assert", "exit", "signal") + CONTENT
 
 
@@ -79,6 +79,8 @@ def check(ctx, args):
                 # types only under --strict (Chunk.verifyOutput returns early at the
                 # default enforcement level): by design, see MANIFEST note
                 kind = "invalid"
+            if kind == "null_value" and phase == "main" and stage in splits:
+                kind = "invalid"      # chunk outs are not validated at the default enforcement level: a null is accepted
             if kind in CONTENT and stage in noouts:
                 kind = "exit"         # a stage without output parameters: the content of _outs is never read
             retry, once = "0", False
